@@ -162,7 +162,7 @@ def w_adc(ctx, rng, i):
     dist = DISTS[i % len(DISTS)]
     n_samp = int(rng.choice([2, 3, 10, 100, 1000, 9999, 10000, 10001, 20000, 50000, 2 ** 17]) if ctx.tier == "thorough" or i % 3 else rng.choice([10000, 20000, 40000]))
     scale = float(10 ** rng.uniform(-6, 2))
-    offset = float(rng.choice([0, 0, 1, -3]) * scale * rng.uniform(0, 5)) if i % 9 else float(rng.choice([1, -1]) * scale * 10 ** rng.uniform(2, 6))     # incl. a large pedestal
+    offset = float(rng.choice([0, 0, 1, -3]) * scale * rng.uniform(0, 5)) if i % 7 else float(rng.choice([1, -1]) * scale * 10 ** rng.uniform(2, 6))     # incl. a large pedestal (every 7th case: combines with every record length, the short ones included)
     nbits = int(rng.integers(1, 13))
     otype = "vn"[int(rng.integers(2))]
     x = make_record(rng, dist, n_samp, scale, offset)
